@@ -140,14 +140,27 @@ def render(sc):
         marker = node
     path = sc["path"]
     text = inner
+    files = {}
     for i in range(len(path), 0, -1):
-        text = wrap(path[i - 1]["c"], path[i - 1]["d"], i, text)
+        c, d = path[i - 1]["c"], path[i - 1]["d"]
+        if c in ("modfileI", "modfileO"):
+            # the module lives in a file of its own: <enclosing module names>/w<i>.rs
+            dirs = [f"w{k}" for k in range(1, i) if path[k - 1]["c"] in ("mod", "modI", "modfileI",
+                                                                          "modfileO")]
+            sib = SIB.format(i=i)
+            body = (decl_attrs(d, True) if c == "modfileI" else "") + \
+                f"fn  sb{i} ( ) {{ {sib} }}\n{text}\n"
+            files["/".join(dirs + [f"w{i}.rs"])] = body
+            text = (decl_attrs(d) if c == "modfileO" else "") + f"mod   w{i} ;"
+        else:
+            text = wrap(c, d, i, text)
     head = decl_attrs(sc["crated"], True)
-    if not path or path[0]["c"] in ("mod", "modI", "fn", "fnI", "impl", "trait"):
+    if not path or path[0]["c"] in ("mod", "modI", "fn", "fnI", "impl", "trait", "modfileI",
+                                    "modfileO"):
         text = head + "fn   sb0 ( )  { " + SIB.format(i=0) + " }\n" + text + "\n"
     sibs = [SIB_DONE.format(i=i) for i in range(0 if True else 1, len(path) + 1)
             if i == 0 or path[i - 1]["c"] != "letd"]
-    return text, marker, sibs
+    return text, marker, sibs, files
 
 
 def key_of(sc):
@@ -201,6 +214,15 @@ def optouts(v, scen, sc):
             (d / "rustfmt.toml").write_text('ignore = ["t.rs"]\n')
         elif o == "generated":
             ttext = "// @generated by a tool\n" + ugly
+            args = ["--config", "format_generated_files=false"]
+        elif o.startswith("generated_"):
+            head = {"generated_block1": "/* @generated */\n",
+                    "generated_blockend": "/* this file is\n   @generated */\n",
+                    "generated_aftercode": "#![allow(unused)] /* @generated */\n",
+                    "generated_docinner": "//! @generated\n",
+                    "generated_star": "/*\n * @generated by a tool\n */\n",
+                    "generated_line5": "// 1\n// 2\n// 3\n// 4\n// @generated\n"}[o]
+            ttext = head + ugly
             args = ["--config", "format_generated_files=false"]
         elif o == "skipped_mod_decl":
             root_text = "#[rustfmt::skip]\nmod  t ;\nmod  sib ;\n" + ugly
@@ -299,10 +321,11 @@ def run(tier, seed, replay=None):
         sel = keep + rest[:3000]
     jobs, meta = [], []
     for s in sel:
-        text, marker, sibs = render(s)
+        text, marker, sibs, files = render(s)
         k = key_of(s)
         hp = core.fnv(k.encode())
-        jobs.append({"id": len(jobs), "src": text, "opts": opts_of(s, hp), "want": ["out"]})
+        jobs.append({"id": len(jobs), "src": text, "opts": opts_of(s, hp), "want": ["out"],
+                     "files": files, "name": "input.rs"})
         meta.append((s, k, marker, sibs))
     with Scratch("c04") as sc:
         outs = ucore.run_jobs(jobs, sc, timeout=30)
@@ -318,7 +341,8 @@ def run(tier, seed, replay=None):
             log(f"  DRIFT {k}: the rendered scenario was not formatted ({o.get('err') or o.get('panic')})")
             continue
         out = o["out"]
-        real = out.count(marker) == j["src"].count(marker) and marker in out
+        n_src = j["src"].count(marker) + sum(t.count(marker) for t in j["files"].values())
+        real = out.count(marker) == n_src and marker in out
         changed = any(sb in out for sb in sibs)
         if not changed:
             v.drift += 1
@@ -342,7 +366,7 @@ def run(tier, seed, replay=None):
                    "targets, 32 node kinds x 6 spellings) rendered and formatted; quick = every cell "
                    "(target/node, spelling/cfg, declaring constructs, innermost construct) once plus a "
                    "seed-chosen sample; distinct_nontrivial = distinct (target or node, innermost "
-                   "construct) cells; plus 11 whole-file opt-outs x 4 emit modes through the binary",
+                   "construct) cells; plus 17 whole-file opt-outs x 4 emit modes through the binary",
            "model_states": res.distinct, "scenarios_in_model": total,
            "traces_replayed_into_impl": len(jobs) + n_oo, "agree_with_transcription": agree,
            "unusable": unusable, "optout_runs": n_oo, "samples": v.samples}
